@@ -90,6 +90,47 @@ fn predictor_cases(drv: &mut Drv, rep: &mut Report, rng: &mut Rng, n: usize) {
     }
 }
 
+/// `read_quantization_indices` (hook 91cb7bc) against the model Vp8Quant.readQuant: headers written
+/// with the RFC's boolean encoder (base index and deltas favouring 0, 127, +-15, explicit "-0"),
+/// every segment-header state, levels over the whole i8 range, truncated and random partitions
+fn quant_cases(drv: &mut Drv, rep: &mut Report, rng: &mut Rng, n: usize) {
+    for i in 0..n {
+        let se = rng.chance(2, 3);
+        let dv = rng.chance(1, 2);
+        let mut levels = [0i8; 4];
+        for l in levels.iter_mut() { *l = match rng.below(6) { 0 => 0, 1 => 127, 2 => -127, 3 => -128, _ => rng.byte() as i8 }; }
+        let data: Vec<u8> = if i % 8 == 7 {
+            let len = rng.below(9) as usize;
+            let mut d: Vec<u8> = (0..len).map(|_| rng.byte()).collect();
+            if !d.is_empty() && d[0] == 255 { d[0] = 254; }
+            d
+        } else {
+            let mut e = Be::new();
+            let yac = match rng.below(5) { 0 => 0, 1 => 127, 2 => rng.below(8) as u32, 3 => 120 + rng.below(8) as u32, _ => rng.below(128) as u32 };
+            e.lit(yac, 7);
+            for _ in 0..5 {
+                let v: i32 = match rng.below(6) { 0 | 1 => 0, 2 => 15, 3 => -15, _ => rng.below(31) as i32 - 15 };
+                e.opt_signed(v, 4, rng.chance(1, 8));
+            }
+            let mut d = e.finish();
+            if i % 8 == 6 { d.truncate(rng.below(3) as usize); }
+            d
+        };
+        let line = format!("vp8quant {} {} {} {}", se as u8, dv as u8, levels.iter().map(|l| l.to_string()).collect::<Vec<_>>().join(","), if data.is_empty() { "-".to_string() } else { hex(&data) });
+        let got = match catch(|| hk::vp8_quant_factors(&data, se, dv, levels)) {
+            Ok(Ok(f)) => f.iter().map(|s| s.iter().map(|x| x.to_string()).collect::<Vec<_>>().join(",")).collect::<Vec<_>>().join(";"),
+            Ok(Err(_)) => "err".to_string(),
+            Err(m) => format!("PANIC {m}"),
+        };
+        let exp = drv.ask(&line);
+        rep.case(&line, true);
+        rep.hit(if got == "err" { "quant_partition_exhausted" } else if se { if dv { "quant_segments_delta" } else { "quant_segments_absolute" } } else { "quant_no_segments" });
+        if got != exp {
+            rep.disagree(Disagreement { case: line, got, expected: exp, class: "violation", obligation: "C02: read_quantization_indices computes the dequantisation factors of RFC 6386 sections 9.6 / 14.1 (model Vp8Quant.readQuant, theorem C02.quant_factors_are_reference: = libwebp's VP8ParseQuant)".into(), detail: format!("segments_enabled {se}, delta_values {dv}") });
+        }
+    }
+}
+
 /// `read_coefficients` (hook 99a8eca) against the model Vp8Coef.readCoefficients: random and biased
 /// partitions (long zero runs, end-of-block right away, large categories), the crate's default
 /// probabilities and random ones (incl. 0 and 255), every plane and starting context, several calls
@@ -577,6 +618,7 @@ pub fn run(o: &Opts) -> Report {
     kernel_cases(&mut drv, &mut rep, &mut rng, if o.thorough() { 200000 } else { 20000 });
     predictor_cases(&mut drv, &mut rep, &mut rng, if o.thorough() { 60000 } else { 6500 });
     coefficient_cases(&mut drv, &mut rep, &mut rng, if o.thorough() { 40000 } else { 4000 });
+    quant_cases(&mut drv, &mut rep, &mut rng, if o.thorough() { 40000 } else { 4000 });
     fparam_cases(&mut drv, &mut rep, &mut rng, if o.thorough() { 100000 } else { 6000 });
     // (b) frames
     let n = if o.thorough() { 1200 } else { 160 };
